@@ -320,6 +320,14 @@ pub fn scenarios(quick: bool, rng: &mut Rng) -> Vec<Scn> {
             }
             v.push(Scn { name: format!("{} idle, client keep-alive 10, handshake imposes {x}", role.name()), role, cfg: base(&|c| { c.keep_alive = 10; c.hs.keepalive = Some(x); }), raw: false, busy: false, client_send_ack_ms: None, timeline: vec![], observe_ms: ((x as f64 + LATE + 1.0) * 1000.0) as u64, expect: Expect::KeepAlive { timeout: x as f64 }, live_gap: None });
         }
+        // very large client values: 1.5 x does not fit into 16 bits, the period saturates (it
+        // must neither wrap around to a few seconds nor switch the timer off)
+        for k in [43_691u16, 43_692, 43_693, 65_535] {
+            if quick && (k == 43_691 || k == 43_693) {
+                continue;
+            }
+            v.push(Scn { name: format!("{} idle, client keep-alive {k} (1.5x overflows 16 bits)", role.name()), role, cfg: base(&|c| c.keep_alive = k), raw: false, busy: false, client_send_ack_ms: None, timeline: vec![], observe_ms: 5500, expect: Expect::Alive, live_gap: None });
+        }
         // keep-alive 0: the 30 s default does not fire within the observation
         v.push(Scn { name: format!("{} idle, client keep-alive 0", role.name()), role, cfg: base(&|c| c.keep_alive = 0), raw: false, busy: false, client_send_ack_ms: None, timeline: vec![], observe_ms: 6000, expect: Expect::Alive, live_gap: None });
         // live peers: keep-alive 2 (3 s), a complete packet every 1.5 s, whole or fragmented, idle or busy handlers
